@@ -13,6 +13,8 @@ Fixpoint no_update (t : target) (h : list op) : bool :=
   match h with
   | [] => true
   | Update k key _ :: r => negb (target_eqb t (k, key)) && no_update t r
+  | Register k key :: r => negb (target_eqb t (k, key)) && no_update t r
+  | Complete k key _ :: r => negb (target_eqb t (k, key)) && no_update t r
   | _ :: r => no_update t r
   end.
 (* neither update nor observation of t in h *)
@@ -21,6 +23,8 @@ Fixpoint quiet (t : target) (h : list op) : bool :=
   | [] => true
   | Update k key _ :: r => negb (target_eqb t (k, key)) && quiet t r
   | Observe k key :: r => negb (target_eqb t (k, key)) && quiet t r
+  | Register k key :: r => negb (target_eqb t (k, key)) && quiet t r
+  | Complete k key _ :: r => negb (target_eqb t (k, key)) && quiet t r
   | Advance _ :: r => quiet t r
   end.
 
@@ -35,11 +39,15 @@ Lemma tfinal_quiet c t h : forall tnow s, quiet t h = true ->
 Proof.
   induction h as [|o r IH]; intros tnow s Hq.
   - cbn. split; [f_equal; lia|reflexivity].
-  - rewrite trun_cons. cbn [tfinal]. destruct o as [k key v|d|k key]; cbn [quiet] in Hq.
+  - rewrite trun_cons. cbn [tfinal]. destruct o as [k key v|d|k key|k key|k key v]; cbn [quiet] in Hq.
     + apply andb_prop in Hq as [H1 H2]. apply negb_true_iff in H1.
       cbn [tview_step op_now elapsed]. rewrite H1. apply IH. exact H2.
     + cbn [tview_step op_now elapsed]. destruct (IH (tnow + d) s Hq) as [E1 E2].
       rewrite E1, E2. split; [f_equal; lia|reflexivity].
+    + apply andb_prop in Hq as [H1 H2]. apply negb_true_iff in H1.
+      cbn [tview_step op_now elapsed]. rewrite H1. apply IH. exact H2.
+    + apply andb_prop in Hq as [H1 H2]. apply negb_true_iff in H1.
+      cbn [tview_step op_now elapsed]. rewrite H1. apply IH. exact H2.
     + apply andb_prop in Hq as [H1 H2]. apply negb_true_iff in H1.
       cbn [tview_step op_now elapsed]. rewrite H1. apply IH. exact H2.
 Qed.
@@ -87,13 +95,17 @@ Lemma tfinal_no_update_within c t T a vs h : forall tnow,
 Proof.
   intros tnow Hc. revert tnow. induction h as [|o r IH]; intros tnow Hn Hle.
   - cbn. f_equal. lia.
-  - cbn [tfinal]. destruct o as [k key v|d|k key]; cbn [no_update elapsed] in *.
+  - cbn [tfinal]. destruct o as [k key v|d|k key|k key|k key v]; cbn [no_update elapsed] in *.
     + apply andb_prop in Hn as [H1 H2]. apply negb_true_iff in H1.
       cbn [tview_step op_now]. rewrite H1. apply IH; assumption.
     + cbn [tview_step op_now]. rewrite IH; [f_equal; lia|exact Hn|lia].
     + cbn [tview_step op_now]. destruct (target_eqb t (k, key)); [|apply IH; assumption].
       unfold tstep. cbn [present negb anchor vals]. rewrite Hc.
       destruct (N.ltb_spec T (tnow - a)); [lia|]. cbn [fst]. apply IH; assumption.
+    + apply andb_prop in Hn as [H1 H2]. apply negb_true_iff in H1.
+      cbn [tview_step op_now]. rewrite H1. apply IH; assumption.
+    + apply andb_prop in Hn as [H1 H2]. apply negb_true_iff in H1.
+      cbn [tview_step op_now]. rewrite H1. apply IH; assumption.
 Qed.
 
 Definition vals_before c t pre :=
@@ -161,7 +173,7 @@ Theorem uncovered_never_deleted c t h : forall tnow s,
 Proof.
   induction h as [|o r IH]; intros tnow s Hc; [intros []|].
   rewrite trun_cons. intros Hin. apply in_app_or in Hin as [Hin|Hin]; [|eapply IH; eauto].
-  destruct o as [k key v|d|k key]; try solve [destruct Hin].
+  destruct o as [k key v|d|k key|k key|k key v]; try solve [destruct Hin].
   destruct (target_eqb t (k, key)); [|destruct Hin].
   destruct Hin as [Hin|[]]. unfold tstep in Hin. rewrite Hc in Hin.
   destruct (negb (present s)); discriminate.
@@ -195,15 +207,40 @@ Fixpoint only (t : target) (h : list op) : list op :=
   | Advance d :: r => Advance d :: only t r
   | Update k key v :: r => if target_eqb t (k, key) then Update k key v :: only t r else only t r
   | Observe k key :: r => if target_eqb t (k, key) then Observe k key :: only t r else only t r
+  | Register k key :: r => if target_eqb t (k, key) then Register k key :: only t r else only t r
+  | Complete k key v :: r => if target_eqb t (k, key) then Complete k key v :: only t r else only t r
   end.
 
 Theorem kinds_and_keys_independent c t h : forall tnow s, trun c t tnow s h = trun c t tnow s (only t h).
 Proof.
   induction h as [|o r IH]; intros tnow s; [reflexivity|].
-  destruct o as [k key v|d|k key]; cbn [only].
+  destruct o as [k key v|d|k key|k key|k key v]; cbn [only].
   - destruct (target_eqb t (k, key)) eqn:E; cbn [trun]; rewrite E; [destruct (tstep _ _ _ _ _)|]; apply IH.
   - cbn [trun]. apply IH.
   - destruct (target_eqb t (k, key)) eqn:E; cbn [trun]; rewrite E; [destruct (tstep _ _ _ _ _); f_equal|]; apply IH.
+  - destruct (target_eqb t (k, key)) eqn:E; cbn [trun]; rewrite E; apply IH.
+  - destruct (target_eqb t (k, key)) eqn:E; cbn [trun]; rewrite E; apply IH.
+Qed.
+
+(* G. an update in flight: an observation that lands between the get_or_create that yields the
+   handle and the moment the update is applied does not hide the update from the NEXT observation:
+   once the update completes the metric counts as updated (the anchor is forgotten), so it is kept,
+   whatever time passed -- provided the in-flight observations did not delete it (then the handle
+   is detached and the update is lost, which the statement excludes by [present]). *)
+Theorem inflight_update_then_observed_kept c t pre mid v mid2 :
+  present (snd (tfinal c t 0 tinit (pre ++ [Register (fst t) (snd t)] ++ mid))) = true ->
+  quiet t mid2 = true ->
+  exists vs, last (trun c t 0 tinit (((pre ++ [Register (fst t) (snd t)] ++ mid) ++ [Complete (fst t) (snd t) v]) ++ mid2 ++ [obs t])) OUnit
+             = OKept (N.of_nat (length (v :: vs))) (view (fst t) (v :: vs)).
+Proof.
+  intros Hp Hq. rewrite app_assoc, last_obs, tfinal_app.
+  rewrite (tfinal_app c t (pre ++ [Register (fst t) (snd t)] ++ mid)).
+  set (st := tfinal c t 0 tinit (pre ++ [Register (fst t) (snd t)] ++ mid)) in *.
+  cbn [tfinal op_now tview_step fst snd]. rewrite target_eta, target_eqb_refl.
+  unfold tcomp. rewrite Hp.
+  match goal with |- context [tfinal c t ?n ?s mid2] => destruct (tfinal_quiet c t mid2 n s Hq) as [E _] end.
+  rewrite E. cbn [fst snd]. unfold tstep. cbn [present negb vals anchor].
+  eexists. destruct (covered c (fst t)); reflexivity.
 Qed.
 
 (* non-vacuity: a concrete history exercising keep / boundary / delete / re-registration, with
